@@ -76,7 +76,9 @@ func functionGrid(c *vk.Ctx) {
 	}
 	for _, h := range []float64{-5, 0, 1, 60, 86400, 1e9} {
 		for _, m := range models {
-			for _, cnt := range []int{0, 1, 2, 10, 1000000} {
+			// (a negative count is not a count; whatever the function makes of it, the result stays a
+			// decay factor: in range, not a NaN, not growing with age - the law is not compared)
+			for _, cnt := range []int{0, 1, 2, 10, 1000000, -1, -2, -1000} {
 				prev := math.Inf(1)
 				for _, age := range ages(math.Max(h, 2)) {
 					n++
@@ -91,11 +93,11 @@ func functionGrid(c *vk.Ctx) {
 					if (age <= 0 || h <= 0) && v != 1 {
 						bad("not-one-when-fresh-or-disabled", fmt.Sprintf("h=%g model=%q age=%g -> %g", h, m, age, v))
 					}
-					if want := refDecay(age, h, m, cnt); math.Abs(v-want) > 1e-12 {
+					if want := refDecay(age, h, m, cnt); cnt >= 0 && math.Abs(v-want) > 1e-12 {
 						bad("law model="+m, fmt.Sprintf("h=%g count=%d age=%g -> %g, law says %g", h, cnt, age, v, want))
 					}
 				}
-				if h > 0 {
+				if h > 0 && cnt >= 0 {
 					if v := f(now-h, h, "exponential", cnt); math.Abs(v-0.5) > 1e-12 {
 						bad("exponential-half", fmt.Sprintf("h=%g -> %g", h, v))
 					}
